@@ -71,6 +71,21 @@ func (e *Engine) callFunction(f *frame, fn *ssa.Function, args []Val, bindings [
 			if e.isSpecFunc(fn) {
 				return e.freshPred(f, argVals)
 			}
+		case "verifBufOK":
+			if e.isSpecFunc(fn) {
+				// representation invariant of bytes.Buffer: 0 <= off <= len(buf) (fields are unexported)
+				mi, isMI := argVals[0].(*ssa.MakeInterface)
+				if !isMI {
+					bail("verifBufOK of an interface value")
+				}
+				b := e.operand(f, mi.X)
+				bt := pointee(b.T)
+				offP := Val{T: types.NewPointer(types.Typ[types.Int]), C: b.C, Root: RootObj, RootT: typeKey(bt), Path: ".off"}
+				bufP := Val{T: types.NewPointer(types.NewSlice(types.Typ[types.Uint8])), C: b.C, Root: RootObj, RootT: typeKey(bt), Path: ".buf"}
+				off := e.load(f.st, offP).C[0]
+				buf := e.load(f.st, bufP)
+				return e.boolVal(e.X.And(e.X.Sle(e.X.Const(0, 64), off), e.X.Sle(off, buf.ln())))
+			}
 		case "verifVisited":
 			if e.isSpecFunc(fn) {
 				// verifVisited(m, k): key k has already been produced by the active iteration over m
@@ -242,7 +257,7 @@ func (e *Engine) useContract(f *frame, fc *FnContract, args []Val, pos token.Pos
 	// allocation counter may have advanced
 	na := X.Fresh("alloc", RefSort)
 	X.FreshBase[na.ID()] = true
-	e.assume(X.Ule(f.st.Alloc, na))
+	e.assume(X.And(X.Ule(f.st.Alloc, na), X.Ule(na, X.Const(0x07ffffff, 32)))) // stated assumption: fewer than 2^27 allocations
 	f.st.Alloc = na
 	rt := resultType(fc.Fn.Signature)
 	res := e.freshVal("r_"+fc.Fn.Name(), rt)
@@ -379,6 +394,13 @@ func (e *Engine) evalModifies(fc *FnContract, args []Val, st *State) []frameLoc 
 			} else {
 				fl.keyPfx = "obj:" + typeKey(pt.Elem()) + "/"
 			}
+			if typeKey(pt.Elem()) == "bytes.Buffer" {
+				// a Buffer owns its backing array: "*b" covers the array up to its capacity
+				bufP := Val{T: types.NewPointer(types.NewSlice(types.Typ[types.Uint8])), C: base.C, Root: RootObj, RootT: "bytes.Buffer", Path: ".buf"}
+				bv := e.load(st, bufP)
+				locs = append(locs, frameLoc{kind: "range", text: ml.Text + " (backing array)", ref: bv.ref(), keyPfx: "arr:uint8/",
+					lo: e.X.Const(0, 64), hi: e.X.BVAdd(bv.off(), bv.cp())})
+			}
 		case "all", "range":
 			var off, ln *smt.Term
 			switch u := base.T.Underlying().(type) {
@@ -417,7 +439,7 @@ func (e *Engine) evalModifies(fc *FnContract, args []Val, st *State) []frameLoc 
 // locAllowed: the callee's write set lies within the caller's frame (or in fresh memory).
 func (e *Engine) locAllowed(l frameLoc) *smt.Term {
 	X := e.X
-	alts := []*smt.Term{X.Ule(e.alloc0, l.ref)}
+	alts := []*smt.Term{e.isFresh(e.alloc0, l.ref)}
 	if l.kind == "range" {
 		alts = append(alts, X.Ule(l.hi, l.lo))
 	}
@@ -458,7 +480,7 @@ func (e *Engine) frameCheck(p Val, t types.Type, pos token.Pos) {
 	if len(slots) == 0 {
 		return
 	}
-	alts := []*smt.Term{X.Ule(e.alloc0, p.ref())}
+	alts := []*smt.Term{e.isFresh(e.alloc0, p.ref())}
 	for _, m := range e.frameLocs {
 		ok := true
 		for _, s := range slots {
@@ -609,7 +631,7 @@ func (e *Engine) freshPred(f *frame, argVals []ssa.Value) Val {
 	if v.Cell != nil {
 		return e.boolVal(X.True)
 	}
-	return e.boolVal(X.And(X.Ule(base, v.C[0]), X.Not(X.Eq(v.C[0], X.Const(0, 32)))))
+	return e.boolVal(X.And(e.isFresh(base, v.C[0]), X.Not(X.Eq(v.C[0], X.Const(0, 32)))))
 }
 
 // ---- builtins
@@ -722,9 +744,59 @@ func (e *Engine) copyBuiltin(f *frame, x *ssa.Call, args []Val) Val {
 	return e.intVal(types.Typ[types.Int], n)
 }
 
+// callUnknownFunc: a call through a function value loaded from a field declared "purefield" is an
+// application of an uninterpreted function of the function value and the arguments (slices
+// contribute their contents); nothing is modified. Any other unknown target is unsupported.
 func (e *Engine) callUnknownFunc(f *frame, x *ssa.Call, fv Val, args []Val) Val {
-	bail("call through a function value with unknown target in %s", f.fn.Name())
-	return Val{}
+	X := e.X
+	origin := ""
+	if ld, ok := x.Call.Value.(*ssa.UnOp); ok {
+		if fa, ok := ld.X.(*ssa.FieldAddr); ok {
+			if st := derefStruct(fa.X.Type()); st != nil {
+				tn := types.TypeString(pointee(fa.X.Type()), nil)
+				origin = tn + "." + st.Field(fa.Field).Name()
+			}
+		}
+	}
+	if !e.PureFields[origin] {
+		bail("call through a function value with unknown target in %s", f.fn.Name())
+	}
+	e.UsedStd["assumed: the function stored in "+origin+" is pure and total"] = true
+	flat := []*smt.Term{fv.C[0]}
+	for _, a := range args {
+		if sl, ok := a.T.Underlying().(*types.Slice); ok {
+			for _, c := range comps(sl.Elem()) {
+				h := e.heap(f.st, "arr:"+typeKey(sl.Elem())+"/"+c.Suffix, c.Sort)
+				j := X.BVarFixed("pj", IntSort)
+				// the contents as seen through the slice: (lambda j. backing[off+j]) and the length
+				flat = append(flat, X.Lambda(j, X.Select(X.Select(h, a.ref()), X.BVAdd(a.off(), j))))
+			}
+			flat = append(flat, a.ln())
+			continue
+		}
+		if a.Cell != nil || a.Clo != nil {
+			bail("static value passed to an unknown function")
+		}
+		flat = append(flat, a.C...)
+	}
+	rt := resultType(x.Call.Signature())
+	mk := func(t types.Type, name string) Val {
+		v := Val{T: t}
+		for i, c := range comps(t) {
+			v.C = append(v.C, X.App(fmt.Sprintf("fnval|%s|%s|%d", origin, name, i), c.Sort, flat...))
+		}
+		e.setPtrMeta(&v)
+		e.assumeWellTyped(f.st, v)
+		return v
+	}
+	if tup, ok := rt.(*types.Tuple); ok {
+		r := Val{T: rt, Tup: []Val{}}
+		for i := 0; i < tup.Len(); i++ {
+			r.Tup = append(r.Tup, mk(tup.At(i).Type(), fmt.Sprintf("r%d", i)))
+		}
+		return r
+	}
+	return mk(rt, "r")
 }
 
 func (e *Engine) stdInline(fn *ssa.Function) bool {
@@ -926,4 +998,30 @@ func (e *Engine) siteIndex(f *frame, pos token.Pos) int {
 	i := len(f.sites)
 	f.sites[pos] = i
 	return i
+}
+
+// isFresh: the object (or the object an embedded array belongs to) was allocated at or after base.
+// References are below 2^28; bits 28..31 select an array embedded in a struct (see subRef).
+func (e *Engine) isFresh(base, ref *smt.Term) *smt.Term {
+	return e.X.Ule(base, e.X.BVAnd(ref, e.X.Const(0x0fffffff, 32)))
+}
+
+// subRef: the reference of the k-th array-typed field embedded in the struct object ref.
+func (e *Engine) subRef(ref *smt.Term, rootT, path string) *smt.Term {
+	key := rootT + "|" + path
+	k, ok := e.subIdx[key]
+	if !ok {
+		n := 0
+		for kk := range e.subIdx {
+			if strings.HasPrefix(kk, rootT+"|") {
+				n++
+			}
+		}
+		if n >= 7 {
+			bail("more than 7 array fields in %s", rootT)
+		}
+		k = n + 1
+		e.subIdx[key] = k
+	}
+	return e.X.BVOr(ref, e.X.Const(uint64(0x80000000|k<<28), 32))
 }
